@@ -55,6 +55,7 @@ class Shape:
 
     def tags(self):
         return {"m": self.m, "form": self.form, "reg": self.reg, "src": self.src[0] if self.src else None,
+                "raw": self.raw if isinstance(self.raw, str) else None,
                 "cls": (self.src[1] if self.src and self.src[0] in ("lit", "equ") else None),
                 "where": (self.src[-1] if self.src and self.src[0] in ("equ", "lbl") else None),
                 "mclass": S.mclass(self.m), "oplen": S.opcode_len(self.m)}
@@ -66,6 +67,8 @@ class Shape:
             return "%s %s,%s" % (self.m, self.regs[0], self.regs[1])
         if self.form == "raw":
             return "%s %s" % (self.m, self.raw)
+        if self.form == "line":
+            return repr(self.raw)
         vt = ""
         if self.src:
             if self.src[0] == "lit":
@@ -92,6 +95,14 @@ def build(ctx, sh):
         lines = [" %s %s" % (m, ",".join(sh.regs))]
     elif sh.form == "pair":
         lines = [" %s %s,%s" % (m, sh.regs[0], sh.regs[1])]
+    elif sh.form == "line":
+        lines = []
+        for raw in (sh.raw if isinstance(sh.raw, list) else [sh.raw]):
+            if "{v}" in raw:
+                t, v = ctx.lit(sh.src[1], "v")
+                raw = raw.replace("{v}", t)
+            lines.append(raw)
+        k = sh.k if hasattr(sh, "k") else 0
     elif sh.form == "raw":
         raw = sh.raw
         if "{v}" in raw:
@@ -126,7 +137,12 @@ def build(ctx, sh):
     c.out, c.kind = out, out.kind
     c.b, c.n, c.size, c.max_size = None, None, None, None
     if out.ok:
-        st = out.program.statements[k]
+        st = out.program.statements[k] if k < len(out.program.statements) else None
+        if st is None:
+            c.env = {"kind": c.kind}
+            c.info = {"lines": lines, "outcome": out.describe()}
+            c.v = v
+            return c
         c.b = stmt_bytes(st)
         c.n = len(c.b)
         c.size = st.code_pkg.size
@@ -349,3 +365,76 @@ def invalid_corpus(tier, seed):
         src = ("lit", "D3") if "{v}" in raw else None
         add(Shape(m, "raw", None, src, raw=raw, expect_valid=False))
     return out
+
+
+BASE_LINES = [
+    ("START", "LDA", "#$10", "load"), ("", "LDX", "#MSG", "ptr"), ("LOOP", "LDA", ",X+", ""), ("", "STA", "$0400", "store"),
+    ("", "BNE", "LOOP", ""), ("MSG", "FCC", '"HELLO"', ""), ("", "FCB", "1,2,3", "bytes"), ("", "FDB", "$1234,5", ""),
+    ("BUF", "RMB", "16", "buffer"), ("", "ORG", "$0E00", ""), ("K", "EQU", "$FF", "const"), ("", "END", "START", ""),
+    ("", "NAM", "PROG", ""), ("", "SETDP", "0", ""), ("", "JSR", "[K]", ""), ("", "LEAX", "MSG,PCR", ""),
+    ("", "PSHS", "A,B,X", ""), ("", "TFR", "X,Y", ""), ("", "LDD", "K+1", ""), ("", "CMPA", "#'A", ""),
+    ("", "LDB", "5,Y", ""), ("", "NOP", "", "nothing"), ("", "LBRA", "START", ""), ("", "STB", "<$20", ""),
+    ("", "LDA", "B,U", ""), ("", "INCLUDE", "other.asm", ""),
+]
+PUNCT = [",", "#", "[", "]", "<", ">", "'", '"', "+", "-", "*", "/", "$", "%", "@", ";", ".", ":", "(", "=", "!", "?", "&", "^"]
+
+
+def render(label, mnem, operand, comment):
+    line = "%s %s %s" % (label, mnem, operand)
+    if comment:
+        line += " ; " + comment
+    return line
+
+
+def mutation_lines(tier, seed):
+    """single-line mutations of valid statements (C13): deleted / duplicated fields, empty operands, unterminated
+    strings, stray punctuation.  Returns list of line texts."""
+    rnd = random.Random(seed + 7)
+    out = []
+    for (l, m, o, c) in BASE_LINES:
+        out.append(render(l, m, o, c))
+        out.append(render(l, m, "", c))                 # operand deleted
+        out.append(render(l, m, "", ""))
+        out.append(render("", m, o, c))                 # label deleted
+        out.append(render(l, "", o, c))                 # mnemonic deleted
+        out.append(render(l, m, o + o, c))              # operand duplicated
+        out.append(render(l, m, o + "," + o, c))
+        out.append(render(l, m + " " + m, o, c))        # mnemonic duplicated
+        out.append(render(l or "L", l or "L", o, c))    # label as mnemonic
+        out.append(l + m + o)                           # separators deleted
+        out.append(render(l, m, o, c).rstrip() + " ;") 
+        out.append(render(l, m.lower(), o, c))
+        if o:
+            out.append(render(l, m, o[:-1], c))         # last char of operand dropped (unterminated string/bracket)
+            out.append(render(l, m, o[1:], c))
+            ps = PUNCT if tier == "thorough" else rnd.sample(PUNCT, 5)
+            for p in ps:
+                out.append(render(l, m, p + o, c))
+                out.append(render(l, m, o + p, c))
+                if tier == "thorough":
+                    out.append(render(l, m, p, c))
+                    mid = len(o) // 2
+                    out.append(render(l, m, o[:mid] + p + o[mid:], c))
+    out += [" END", " RMB", " ORG", " FCC", "A EQU", ' FCC "ab', " FCB V", " FCB 1,X", " FDB", " FCB", " SETDP", " NAM",
+            "LBL", " FCC \"\"", ' FCC "', " FCC /", " FCC //", " FCC /a", " FCC a", " FCC ab", " FCB ,", " FCB 1,", " FCB ,1",
+            " FDB ,,", " FCB 1,,2", " RMB -1", " RMB $", " ORG -1", " ORG 70000", " EQU 5", "A EQU A", "A EQU B", " SET 5",
+            "A SET", " INCLUDE", " END 5", " END X", " NAM 1234567890ABC", " SETDP $100", " FCB 'A", " FCB '", " FCB #5",
+            " FCB <5", " FCB [5]", " FDB 'A,'B", " FCB $", " FCB %", " FCB %2", " FCB $G", " FCB -", " FCB --1", " FCB 1-",
+            " FCB 1+", " FCB 1+2", " FCB 1/0", " LDA #1/0", " LDA 1/0", "A EQU 1/0", " FDB 1/0", " LDA #5/0,X", " LDA 5/0,X",
+            "\t", " ", "", ";", " ;", "; c", "*", "* c", "LBL:", "LBL: NOP", "1 NOP", "@ NOP", "@@ NOP ", "LBL NOP X",
+            " NOP NOP", "  ", " LDA", " LDA ", "LDA #1", " LDA\t#1", "\tLDA\t#1\t; c", " LDA #1;c", " LDA #1 c"]
+    seen = set()
+    res = []
+    for x in out:
+        if x not in seen:
+            seen.add(x)
+            res.append(x)
+    return res
+
+
+def line_corpus(tier, seed):
+    shapes = []
+    for i, line in enumerate(mutation_lines(tier, seed)):
+        sh = Shape("?", "line", raw=line, expect_valid=None)
+        shapes.append(sh)
+    return shapes
